@@ -3,6 +3,7 @@ package main
 import (
 	"fmt"
 	"os"
+	"path/filepath"
 	"sort"
 	"strings"
 	"time"
@@ -15,6 +16,11 @@ type BashCase struct {
 	Stdin string
 	// NonTrivial decides whether the case counts towards distinct_nontrivial.
 	NonTrivial func(r Result) bool
+	PreFiles   map[string]string // files present in the sandbox (and the model file system) before the run
+	PreDirs    []string
+	CheckFS    bool // compare the complete sandbox file system with the model afterwards
+	AppHook    func(stages [][]string, fs map[string][]byte) (string, int)
+	Tools      map[string]string // extra executables to install in the sandbox (name -> absolute source path)
 }
 
 type caseOutcome int
@@ -31,7 +37,20 @@ const interpBudget = 20000
 // judgeBash runs one case end to end: reference interpreter -> real Transpile
 // -> real /bin/bash -> comparison. It reports violations on c.
 func judgeBash(c *Check, bc BashCase) caseOutcome {
-	ref := Interpret(bc.Prog, 64, interpBudget)
+	it := &Interp{Width: 64, MaxSteps: interpBudget, prog: bc.Prog, FS: map[string][]byte{}, Dirs: map[string]bool{}}
+	for n, s := range bc.PreFiles {
+		it.FS[n] = []byte(s)
+	}
+	for _, d := range bc.PreDirs {
+		it.Dirs[d] = true
+	}
+	if bc.Stdin != "" {
+		it.Stdin = strings.Split(strings.TrimSuffix(bc.Stdin, "\n"), "\n")
+	}
+	if bc.AppHook != nil {
+		it.AppHook = func(stages [][]string) (string, int) { return bc.AppHook(stages, it.FS) }
+	}
+	ref := it.Run()
 	if ref.Undefined != "" {
 		if strings.HasPrefix(ref.Undefined, "interpreter:") {
 			fatalf("oracle fault on %s: %s\n%s", bc.Key, ref.Undefined, RenderFile(bc.Prog.Files[0]))
@@ -59,6 +78,10 @@ func judgeBash(c *Check, bc BashCase) caseOutcome {
 			id += "\x00" + n + "\x00" + srcs[n]
 		}
 	}
+	id += "\x00" + bc.Stdin
+	for _, n := range sortedKeys(bc.PreFiles) {
+		id += "\x00" + n + "\x00" + bc.PreFiles[n]
+	}
 	c.Eval(id, nontrivial)
 	c.AddFeats(ref.Features)
 	if tr.Hang {
@@ -78,7 +101,21 @@ func judgeBash(c *Check, bc BashCase) caseOutcome {
 	// run in a fresh sandbox so that source files are not visible to the script
 	run := newSandbox()
 	defer os.RemoveAll(run)
-	rr := RunBash(run, tr.Script, RunOpts{Stdin: bc.Stdin, Timeout: 6 * time.Second})
+	for n, s := range bc.PreFiles {
+		full := filepath.Join(run, n)
+		os.MkdirAll(filepath.Dir(full), 0o755)
+		os.WriteFile(full, []byte(s), 0o644)
+	}
+	for _, d := range bc.PreDirs {
+		os.MkdirAll(filepath.Join(run, d), 0o755)
+	}
+	ignore := []string{}
+	for n, src := range bc.Tools {
+		b, _ := os.ReadFile(src)
+		os.WriteFile(filepath.Join(run, n), b, 0o755)
+		ignore = append(ignore, n)
+	}
+	rr := RunBash(run, tr.Script, RunOpts{Stdin: bc.Stdin, Timeout: 6 * time.Second, Snap: bc.CheckFS, Ignore: ignore})
 	if rr.TimedOut || rr.Capped {
 		// decide on logical steps, not on wall time; confirm at most a few per run
 		if c.bumpNonterm() > 8 {
@@ -109,6 +146,31 @@ func judgeBash(c *Check, bc BashCase) caseOutcome {
 	}
 	if rr.Stderr != "" {
 		problems = append(problems, "stderr not empty: "+oneLine(stripDir(rr.Stderr, run)))
+	}
+	if bc.CheckFS && !rr.TimedOut {
+		want := map[string]string{}
+		for n, b := range ref.FS {
+			want[n] = string(b)
+			for d := filepath.Dir(n); d != "." && d != "/"; d = filepath.Dir(d) {
+				want[d+"/"] = ""
+			}
+		}
+		for _, d := range bc.PreDirs {
+			want[d+"/"] = ""
+		}
+		for _, n := range sortedKeys(want) {
+			got, ok := rr.Files[n]
+			if !ok {
+				problems = append(problems, fmt.Sprintf("file %q missing after the run", n))
+			} else if got != want[n] {
+				problems = append(problems, fmt.Sprintf("file %q holds %q, expected %q", n, clip(got, 80), clip(want[n], 80)))
+			}
+		}
+		for _, n := range sortedKeys(rr.Files) {
+			if _, ok := want[n]; !ok {
+				problems = append(problems, fmt.Sprintf("unexpected file %q created (content %q)", n, clip(rr.Files[n], 60)))
+			}
+		}
 	}
 	if len(problems) > 0 {
 		c.Violation(bc.Key, strings.Join(problems, "; "), files)
@@ -236,6 +298,11 @@ func bashProbeJudge(pr Probe) (bool, string, map[string]string) {
 	files["script.sh"] = tr.Script
 	run := newSandbox()
 	defer os.RemoveAll(run)
+	for n, s := range pr.Files {
+		if !strings.HasSuffix(n, ".tsh") {
+			os.WriteFile(filepath.Join(run, n), []byte(s), 0o644)
+		}
+	}
 	rr := RunBash(run, tr.Script, RunOpts{Stdin: pr.Stdin, Timeout: 5 * time.Second})
 	files["observed.stdout"] = clip(rr.Stdout, 4000)
 	files["observed.stderr"] = rr.Stderr
